@@ -129,14 +129,29 @@ def run(ctx):
                   'LRU victim end %s vs insertion end %s' % (sorted(victim_end), sorted(ins_end)), f.where)
     for f in insts(P, 'fetch'):
         t = tag(f)
-        er = q.field_calls(f, 'mem_cache::lru', 'erase')
-        pf = q.field_calls(f, 'mem_cache::lru', ('push_front', 'push_back'))
-        w = q.field_writes(f, 'container::lru')
-        ok = len(er) == 1 and len(pf) == 1 and len(w) == 1 and q.before(f, er[0], pf[0]) and q.before(f, pf[0], w[0])
+        # the touch (erase from old position, push at the insertion end, update the back pointer) may sit in fetch
+        # itself or in a helper of the same class that fetch calls; either way the event in fetch is what must
+        # precede every successful return
+        cands = [(f, None)]
+        for i in f.calls():
+            g = P.fns.get(f.N(i).get('callee'))
+            if g is not None and g.record == f.record and g.entry is not None and g is not f:
+                cands.append((g, i))
+        found = []
+        for g, site in cands:
+            er = q.field_calls(g, 'mem_cache::lru', 'erase')
+            pf = q.field_calls(g, 'mem_cache::lru', ('push_front', 'push_back'))
+            w = q.field_writes(g, 'container::lru')
+            if not (er or pf or w):
+                continue
+            okg = len(er) == 1 and len(pf) == 1 and len(w) == 1 and q.before(g, er[0], pf[0]) and q.before(g, pf[0], w[0])
+            if site is not None:
+                okg = okg and q.always_before_exit(g, er) and q.always_before_exit(g, pf) and q.always_before_exit(g, w)
+            found.append((okg, pf[0] if site is None and pf else site))
+        ok = len(found) == 1 and found[0][0]
         ctx.check(ok, R2, 'fetch[%s]:touch-moves-entry-to-insertion-end' % t, 'a hit does not move the entry to the most-recently-used end (erase, push, update back pointer)', f.where)
         succ = q.nonfalse_returns(f)
-        if True:
-            ctx.check(ok and all(q.before(f, pf[0], r) for r in succ), R2, 'fetch[%s]:every-hit-touches' % t, 'a hit can return without updating recency', f.where)
+        ctx.check(ok and all(q.before(f, found[0][1], r) for r in succ), R2, 'fetch[%s]:every-hit-touches' % t, 'a hit can return without updating recency', f.where)
 
     # ---- R3 counters
     for f in insts(P, 'store'):
